@@ -339,6 +339,36 @@ pub fn check_component(case: &StreamCase) -> Outcome {
             }
             out.nontrivial = stream.frame_count() >= 1;
             out.class("component:stream");
+            // "any component": every frame (as encoded and with a precomputed bitstream), frame header, subframe,
+            // residual and the STREAMINFO block, each serialised alone behind 0..=13 stray bits (inside a frame no
+            // component starts on a byte boundary) into the three sinks
+            if !out.failed() {
+                let mut k = (case.inp.seed % 14) as usize;
+                let mut parts = 0usize;
+                three_way("stream-info", stream.stream_info(), k, &mut out);
+                'frames: for n in 0..stream.frame_count() {
+                    let f = stream.frame(n).unwrap();
+                    k = (k * 5 + 3) % 14;
+                    three_way("frame", f, k, &mut out);
+                    let mut pre = f.clone();
+                    pre.precompute_bitstream();
+                    three_way("frame-precomputed", &pre, (k + 5) % 14, &mut out);
+                    three_way("frame-header", f.header(), (k + 1) % 14, &mut out);
+                    for c in 0..f.subframe_count() {
+                        let sf = f.subframe(c).unwrap();
+                        three_way("subframe", sf, (k + 2 + c) % 14, &mut out);
+                        match sf {
+                            flacenc::component::SubFrame::FixedLpc(x) => three_way("residual", x.residual(), (k + 7 + c) % 14, &mut out),
+                            flacenc::component::SubFrame::Lpc(x) => three_way("residual", x.residual(), (k + 9 + c) % 14, &mut out),
+                            _ => {}
+                        }
+                        parts += 1;
+                        if out.failed() || parts > 64 {
+                            break 'frames;
+                        }
+                    }
+                }
+            }
         }
         Ok(Err(_)) => out.class("skipped:write-error(C12/C18)"),
         Err(_) => out.class("skipped:write-panic(C01)"),
@@ -346,10 +376,48 @@ pub fn check_component(case: &StreamCase) -> Outcome {
     out
 }
 
+/// One component behind `lead` stray bits in MemSink<u8>, MemSink<u64> and the minimal user sink: same bits.
+fn three_way<T: BitRepr>(what: &str, c: &T, lead: usize, out: &mut Outcome) {
+    if out.failed() {
+        return;
+    }
+    let r = catch(|| {
+        let mut a = MemSink::<u8>::new();
+        let mut b = MemSink::<u64>::new();
+        let mut u = MinimalSink::new();
+        let pat = 0x2AAAu16;
+        a.write_lsbs(pat, lead).map_err(|e| format!("{e:?}"))?;
+        b.write_lsbs(pat, lead).map_err(|e| format!("{e:?}"))?;
+        u.write_lsbs(pat, lead).map_err(|e| format!("{e:?}"))?;
+        c.write(&mut a).map_err(|e| format!("{e:?}"))?;
+        c.write(&mut b).map_err(|e| format!("{e:?}"))?;
+        c.write(&mut u).map_err(|e| format!("{e:?}"))?;
+        Ok::<_, String>((a, b, u))
+    });
+    match r {
+        Ok(Ok((a, b, u))) => {
+            let m = BitModel::from_bytes(a.as_slice(), a.len());
+            let mut bb = vec![0u8; (b.len() + 7) / 8];
+            b.write_to_byte_slice(&mut bb);
+            let counted = c.count_bits();
+            // frames and blocks pad to a byte boundary of the *sink*; only unpadded components have a position-independent length
+            if a.len() != b.len() || a.as_slice() != &bb[..] {
+                out.viol(format!("component:{what}:MemSink<u8>-vs-MemSink<u64>"), format!("{} vs {} bits behind {lead} stray bits (count_bits {counted})", a.len(), b.len()));
+            } else if u.model != m {
+                let at = u.model.bits.iter().zip(m.bits.iter()).position(|(x, y)| x != y);
+                out.viol(format!("component:{what}:user-sink-differs"), format!("behind {lead} stray bits the user sink received {} bits, the in-memory sinks {} bits, first difference at bit {:?}", u.model.len(), m.len(), at));
+            }
+            out.class(format!("component:{what}"));
+        }
+        Ok(Err(_)) => out.class("skipped:write-error(C12/C18)"),
+        Err(_) => out.class("skipped:write-panic(C01)"),
+    }
+}
+
 pub fn run(ctx: &Ctx) {
     ctx.rule(
         "histories = vec(op, 1..40) over {write<T>, write_msbs<T>(v,n), write_lsbs<T>(v,n), write_twoc(v,w), write_zeros(n), align_to_byte, write_bytes_aligned} with T in u8..u64 and n in 0..=bits(T), applied step by step to MemSink<u8>, MemSink<u64>, a user sink implementing only the required methods, and a Vec<bool> model; \
-         exhaustive grid: start offset 0..=63 x T x n in 0..=bits(T) x {all ones, alternating, random} x {msbs, lsbs} followed by a sentinel write; components (generated streams) serialised into all three sinks; \
+         exhaustive grid: start offset 0..=63 x T x n in 0..=bits(T) x {all ones, alternating, random} x {msbs, lsbs} followed by a sentinel write; components (generated streams; then every frame as encoded and precomputed, frame header, subframe, residual and the STREAMINFO block alone behind 0..=13 stray bits) serialised into all three sinks; \
          non-trivial = sequence with >= 3 ops that crosses a 64-bit word boundary (every grid point counts)",
     );
     let per = ctx.tier.scale(60000, 8);
